@@ -350,8 +350,19 @@ pub fn c08_block(b: usize, sink: &mut Sink, judge: &Judge) {
             case.prelude = rng.range(1, 5) as u8;
         }
         case.builder_detour = rng.below(4) as u8;
-        if rng.chance(1, 8) {
-            case.accept_encoding = Some(b"identity".to_vec());
+        case.noise = rng.below(6) as u8;
+        match rng.below(8) {
+            0 => case.accept_encoding = Some(b"identity".to_vec()),
+            // a client that prefers gzip, a server configured not to compress: identity coding
+            1 => {
+                case.accept_encoding = Some(b"gzip".to_vec());
+                case.gzip_level = Some(0);
+            }
+            2 => {
+                case.accept_encoding = Some(b"*;q=0.5, br".to_vec());
+                case.gzip_level = Some(0);
+            }
+            _ => {}
         }
         vec![case]
     }, judge);
@@ -528,6 +539,7 @@ pub fn c09_block(b: usize, sink: &mut Sink, judge: &Judge) {
                     case.prelude = rng.range(1, 5) as u8;
                 }
                 case.builder_detour = rng.below(4) as u8;
+                case.noise = rng.below(6) as u8;
                 vec![case]
             }
         }, judge);
@@ -554,6 +566,7 @@ pub fn c09_block(b: usize, sink: &mut Sink, judge: &Judge) {
             let mut case = StreamCase::gzip(chunk, level, ops);
             case.payload = [Payload::Hash, Payload::Zeros, Payload::Text][(i + k) % 3];
             case.prelude = (i % 6) as u8;
+            case.noise = ((i + k) % 6) as u8;
             exec(&case, sink, judge);
         }
         // a stalled reader: many small write+flush pairs without a poll, then a drain
@@ -629,7 +642,7 @@ fn c17_run(n: &NegCase, sink: &mut Sink) -> (Verdict, Option<u64>, Value) {
     let mut first_hdrs: Option<Vec<(String, Vec<u8>)>> = None;
     for method in ["GET", "POST", "HEAD"] {
         for via_parts in [false, true] {
-            let case = StreamCase { method: method.into(), accept_encoding: n.accept_encoding.clone(), chunk: n.chunk, gzip_level: n.level, via_parts, payload: Payload::Text, ops: vec![Op::WriteAll(300), Op::WriteV(vec![n.chunk as u32 + 1, 40, 2 * n.chunk as u32]), Op::WriteAll(5)], extra_polls: 1, fresh_wakers: false, prelude: 0, builder_detour: (hash64(n) % 4) as u8 };
+            let case = StreamCase { method: method.into(), accept_encoding: n.accept_encoding.clone(), chunk: n.chunk, gzip_level: n.level, via_parts, payload: Payload::Text, ops: vec![Op::WriteAll(300), Op::WriteV(vec![n.chunk as u32 + 1, 40, 2 * n.chunk as u32]), Op::WriteAll(5)], extra_polls: 1, fresh_wakers: false, prelude: 0, builder_detour: (hash64(n) % 4) as u8, noise: ((hash64(n) >> 8) % 6) as u8 };
             let o = match run_stream(&case) {
                 Some(o) => o,
                 None => return (Verdict::DontCare("inexpressible".into()), None, json!(null)),
@@ -710,7 +723,7 @@ fn c17_many_live(k: usize, sink: &mut Sink) {
         let mut live = Vec::new();
         for i in 0..n {
             let gz = i % 3 != 2;
-            let case = StreamCase { method: "GET".into(), accept_encoding: if gz { Some(b"gzip".to_vec()) } else { None }, chunk: 4096, gzip_level: Some(1 + (i % 9) as u32), via_parts: i % 2 == 0, payload: Payload::Text, ops: vec![], extra_polls: 0, fresh_wakers: false, prelude: 0, builder_detour: 0 };
+            let case = StreamCase { method: "GET".into(), accept_encoding: if gz { Some(b"gzip".to_vec()) } else { None }, chunk: 4096, gzip_level: Some(1 + (i % 9) as u32), via_parts: i % 2 == 0, payload: Payload::Text, ops: vec![], extra_polls: 0, fresh_wakers: false, prelude: 0, builder_detour: 0, noise: 0 };
             match build(&case) {
                 Some((resp, Some(w))) => live.push((gz, resp, w)),
                 _ => return Some("build returned no writer".into()),
@@ -775,7 +788,7 @@ impl Prop for C17 {
         "exploration"
     }
     fn rule(&self, _: &Ctx) -> String {
-        "full product: Accept-Encoding {absent, empty, invalid, all 66 single elements (6 codings x 11 weights), all 225 pairs over {gzip, identity, *} x 5 weights} x gzip level {default, 0..9} x chunk size {1, 7, 4096}; each configuration is built for GET, POST and HEAD, as Request and as Parts (6 builds; three quarters of the configurations reach their settings through earlier, overridden builder calls), write_all(300) + one write_vectored of three slices + write_all(5), body drained; plus 70 / 300 / 1000 bodies alive at the same time, each then written, drained and verified. Non-trivial = distinct configuration whose Vary / Content-Encoding were compared with should_gzip && level > 0, whose body coding was verified against the header (gzip member parser / verbatim bytes), and whose HEAD/Parts variants were compared".into()
+        "full product: Accept-Encoding {absent, empty, invalid, all 66 single elements (6 codings x 11 weights), all 225 pairs over {gzip, identity, *} x 5 weights} x gzip level {default, 0..9} x chunk size {1, 7, 4096}; each configuration is built for GET, POST and HEAD, as Request and as Parts (6 builds; five sixths of the configurations carry unrelated request headers - Cache-Control, Range, TE, Content-Encoding ... -; three quarters of the configurations reach their settings through earlier, overridden builder calls), write_all(300) + one write_vectored of three slices + write_all(5), body drained; plus 70 / 300 / 1000 bodies alive at the same time, each then written, drained and verified. Non-trivial = distinct configuration whose Vary / Content-Encoding were compared with should_gzip && level > 0, whose body coding was verified against the header (gzip member parser / verbatim bytes), and whose HEAD/Parts variants were compared".into()
     }
     fn n_blocks(&self, ctx: &Ctx) -> usize {
         if ctx.leg.slow() { 4 } else { 11 * 3 + 3 }
